@@ -59,6 +59,8 @@ def shards(tier, seed):
     out += c11_cont.shards(tier)
     topo = c11_topo.shards(tier)
     out += [s for s in topo if s['kind'] == 'topo']
+    from .. import c11_lochist
+    out += c11_lochist.shards(tier)
     heavy = [s for s in topo if s['kind'] == 'locate' and s['base'] == 'mixed2'] + [s for s in c11_seq_shards(tier) if SEQ_COST[s['base']] >= 5]
     out += heavy
     out += [s for s in topo if s['kind'] == 'locate' and s['base'] != 'mixed2']
@@ -163,6 +165,10 @@ MAXLEN = {'quick': 16, 'thorough': 64}
 def run_shard(spec, tier, seed):
     res = core.ShardResult()
     kind = spec['kind']
+    if kind == 'lochist':
+        from .. import c11_lochist
+        c11_lochist.run(spec, tier, res)
+        return res
     if kind == 'seq':
         _run_seq(spec, tier, res)
     elif kind == 'chain':
@@ -178,6 +184,9 @@ def run_shard(spec, tier, seed):
 
 def replay(w):
     kind = w['kind']
+    if kind == 'lochist':
+        from .. import c11_lochist
+        return c11_lochist.replay(w)
     if kind == 'seq':
         r = c11_seq.run_ops(w['base'], w['ops'], w.get('tier', 'quick'))
         return None if r is None else '{}: {}'.format(*r)
